@@ -1,7 +1,7 @@
 -------------------------------- MODULE AsmDebug --------------------------------
 (* Diagnosis aid: prints the reference result next to the observation for one record. *)
 EXTENDS AsmTrace
-D == LET r == Rec[1] sg == Sigma(r) R == Ref(r.prog, sg, r.pc0, TRUE) IN
+D == LET r == Rec[1] sg == Sigma(r) R == RefF(r.prog, r.files, sg, r.pc0, TRUE) IN
      /\ PrintT(<<"errs", R.errs, "unspec", R.unspec>>)
      /\ PrintT(<<"ref-tab", [k \in {x \in DOMAIN R.tab : R.tab[x].k = "num"} |-> R.tab[k].n]>>)
      /\ PrintT(<<"obs-tab", [k \in {x \in DOMAIN sg : sg[x].k = "num"} |-> sg[k].n]>>)
